@@ -1571,7 +1571,7 @@ class _tzparser(object):
 
                 assert i >= len_l
 
-        except (IndexError, ValueError, AssertionError):
+        except (IndexError, ValueError, AssertionError, TypeError):
             return None
 
         unused_idxs = set(range(len_l)).difference(used_idxs)
